@@ -93,11 +93,14 @@ mod verif_search {
         {
             use core::convert::TryFrom;
             fn verdict(r: &Result<NormalizedString, NormalizedStringError>) -> String { match r { Ok(v) => format!("Ok({})", v.as_ref()), Err(e) => format!("Err({:?})", e) } }
-            for len in 0..=40usize { for variant in 0..6 {
+            for len in 0..=40usize { for variant in 0..8 {
                 let mut bytes: Vec<u8> = (0..len).map(|_| 0x20 + (rng.next() % 0x5f) as u8).collect();
                 if variant >= 4 && len > 0 { let pos = (rng.next() as usize) % len; bytes[pos] = if variant == 4 { 0x1f } else { 0x7f }; }
                 let mut s = String::from_utf8(bytes).unwrap();
                 if variant == 3 && len > 0 { s.push('é'); }
+                // two different offenders in one string: the first one in text order is the one reported
+                if variant == 6 && len >= 2 { let mut b = s.into_bytes(); b[0] = 0x09; s = String::from_utf8(b).unwrap(); s.push('€'); }
+                if variant == 7 && len >= 2 { let mut b = s.into_bytes(); let l = b.len(); b[l - 1] = 0x7f; s = String::from_utf8(b).unwrap(); s.insert(0, 'é'); }
                 n += 1;
                 let want = verdict(&NormalizedString::new(&s));
                 if s.len() > 16 && !want.starts_with("Err") { println!("REPLAY-FAIL c13_display_hash new accepted the {}-byte string {:?}", s.len(), s); return; }
